@@ -28,7 +28,8 @@ Events(s) ==
   IF ~Has(s.l1.cfg, "1") THEN {Create}
   ELSE
     (IF Len(s.deps) < (IF Thorough THEN 3 ELSE 2)
-     THEN {UserDeposit("u1", "u1", d, 2) : d \in Dens} \cup {UserDeposit("u2", "bad:notbech32", "d1", 1), UserDeposit("u1", "u2", "d1", 4)} ELSE {})
+     THEN {UserDeposit("u1", "u1", d, 2) : d \in Dens} \cup {UserDeposit("u2", "bad:notbech32", "d1", 1), UserDeposit("u1", "u2", "d1", 4)}
+          \cup {UserDepositD("u1", "u2", "d1", 2, h) : h \in {"hw", "hwf"}} ELSE {})
     \cup {Relay(s, a, q) : a \in {"e1"}, q \in 1..Len(s.deps)}
     \cup (IF Len(s.deps) >= 1 THEN {Relay(s, "x", 1)} ELSE {})
     \cup (IF Len(s.wds) < (IF Thorough THEN 3 ELSE 2)
